@@ -233,8 +233,29 @@ func Samples(w *vt.W, rng *rand.Rand, n int) {
 			}
 		}
 	}
+	// beyond the largest and the smallest representable score: down to the denormals, and up to 1 - 10^-15
+	for _, e := range []int{-27, -28, -30, -33, -40, -100, -200, -300, -319} {
+		for m := 10000; m < 100000; m += 14990 {
+			ProbRow(w, "ephred", m, e, false)
+			ProbRow(w, "esolexa", m, e, false)
+		}
+	}
+	for e := -14; e >= -26; e-- {
+		for m := 10000; m < 100000; m += 14990 {
+			ProbRow(w, "esolexa", m, e, false)
+		}
+	}
+	for _, e := range []int{-14, -15} {
+		for m := 10000; m < 100000; m += 14990 {
+			ProbRow(w, "esolexa", m, e, true)
+		}
+	}
 	for i := 0; i < n; i++ {
 		m := 10000 + rng.Intn(90000)
+		if i%8 == 7 {
+			ProbRow(w, []string{"ephred", "esolexa"}[rng.Intn(2)], m, -27-rng.Intn(290), false)
+			continue
+		}
 		switch rng.Intn(4) {
 		case 0, 1:
 			ProbRow(w, "ephred", m, -1-rng.Intn(26), false)
@@ -397,6 +418,8 @@ func Seqs(w *vt.W, rng *rand.Rand, n int) {
 		m, e, comp := 10000+rng.Intn(90000), -1-rng.Intn(9), false
 		if typ == "solexa" && rng.Intn(3) == 0 {
 			comp, e = true, -2-rng.Intn(6)
+		} else if rng.Intn(8) == 0 {
+			e = -14 - rng.Intn(30) // beyond the representable scores of either kind from 10^-27 on
 		}
 		SeqCall(w, typ, enc, off, sc, call, i, score(typ), m, e, comp)
 	}
